@@ -498,7 +498,36 @@ def check_progress(rep, g, ev, label):
     return pend
 
 
+def check_compaction(rep, g, ev, label, rule="R12.6"):
+    """Before every in-request transport read the stream parser's buffer was compacted since the last parse: otherwise
+    consumed bytes are never reclaimed, input_buffer() shrinks to nothing and the zero-length read is mistaken for EOF."""
+    def effect(n, m, lab):
+        gens, kills = set(), set()
+        if n.term["k"] == "call" and not n.noise() and g.callee(n) == "parser::stream::Parser::compress":
+            gens.add("COMPACT")
+        e = ev.at(n)
+        if e is not None and e[0] == 'PARSE' and e[1] == 'str':
+            kills.add("COMPACT")
+        return gens, kills
+    md = common.must_dataflow(g, frozenset(), effect)
+    n_ = 0
+    for n in g.all_nodes():
+        e = ev.at(n)
+        if e is None or e[0] != 'READ' or n.key not in md:
+            continue
+        if read_phase(g, n) != 'in-request':
+            continue
+        n_ += 1
+        key = "%s/%s/compact-before-read" % (label, common.fn_of(n))
+        if "COMPACT" in md[n.key]:
+            rep.ok(rule, key, "Parser::compress() runs after the last parse on every path to this read", n.loc())
+        else:
+            rep.violation(rule, key, "a transport read into the stream parser's buffer is reachable without compress() since the last parse (space is never reclaimed; a full buffer yields a zero-length read reported as EOF)", n.loc())
+    return n_
+
+
 def run(rep, facts):
+    rep.rule("R12.6", "every in-request transport read is preceded, since the last parse, by stream::Parser::compress()")
     rep.rule("R12.1", "every transport read count is compared with 0 before use; the zero edge returns ConnectionReset (preamble reads) / UnexpectedEof (in-request reads) with no further I/O")
     rep.rule("R12.2", "no io::Result / Poll<io::Result> / Result<_, parser::Error> of the async layer is dropped uninspected; tolerated errors are exactly the three enumerated ones")
     rep.rule("R12.3", "after an error was observed (Err arm or `?`), no READ/WRITE/PARSE/HANDLER event is reachable except through an enumerated tolerance guard")
@@ -513,6 +542,7 @@ def run(rep, facts):
         npolls += check_zero_tests(rep, g, ev, label)
         nerr += check_error_live(rep, g, ev, label)
         npend += check_progress(rep, g, ev, label)
+        check_compaction(rep, g, ev, label)
     nres = check_dropped_results(rep, facts)
     # floors counted on the pinned tree
     rep.floor("R12.1", "transport polls (reads and writes) across entry points", npolls, 10)
